@@ -364,6 +364,7 @@ func checkC03(w *World, r *Run) {
 		checkCacheEarlyFill(w, r, c)
 	}
 	checkTxFinalization(w, r)
+	checkRollbackHooksIgnoreContext(w, r)
 	r.NotCovered("fault injection at every step; remote stores' behaviour on failure; stores that ignore the transaction by design (gdrive, dropbox, onedrive: documented as to be wrapped in the outbox store); correctness of each rollback hook's file operations")
 }
 
